@@ -126,7 +126,21 @@ mut("c18-zz32-mul-carry", "C18", "src/backend/w64/zz32.rs", '            d[i + 4
 mut("c18-w32-gf255-half", "C18", "src/backend/w32/gf255.rs", '        for i in 0..7 {\n            self.0[i] = (self.0[i] >> 1) | (self.0[i + 1] << 31);\n        }\n        self.0[7] = self.0[7] >> 1;\n\n        // 2. If the dropped bit was 1, add back (q+1)/2.', '        for i in 0..6 {\n            self.0[i] = (self.0[i] >> 1) | (self.0[i + 1] << 31);\n        }\n        self.0[6] = self.0[6] >> 1;\n        self.0[7] = self.0[7] >> 1;\n\n        // 2. If the dropped bit was 1, add back (q+1)/2.', "w32 GF255: set_half wrong for odd inputs with top limb bit set (filled in below)")
 mut("c18-avx2-blake2s-rotation", "C18", "src/blake2s.rs", '_mm_srli_epi32(xtg, 12), _mm_slli_epi32(xtg, 20));', '_mm_srli_epi32(xtg, 12), _mm_slli_epi32(xtg, 19));', "AVX2 BLAKE2s: one wrong rotation constant (filled in below)", n=0)
 mut("c18-clmul-gfb254-square", "C18", "src/backend/w64/gfb254_x86clmul.rs", '            let h = _mm256_slli_epi64(f, 1);\n\n            let b = _mm256_xor_si256(d0, _mm256_xor_si256(g, h));\n\n            // Resplit b into the two individual squares and assemble.', '            let h = _mm256_slli_epi64(f, 2);\n\n            let b = _mm256_xor_si256(d0, _mm256_xor_si256(g, h));\n\n            // Resplit b into the two individual squares and assemble.', "CLMUL GF(2^127): wrong reduction in squaring (filled in below)")
+mut("c18-revert-fix-gfgen-split-order", "C18", "src/backend/w32/gfgen.rs",
+    "                for (bb, e) in [(0i32, e0), (-1i32, e0 - k), (1i32, e0 + k)] {", "                for (bb, e) in [(-1i32, e0 - k), (0i32, e0), (1i32, e0 + k)] {", "revert of fix 34a49f8 (order of the candidates)")
+mut("c18-revert-fix-p256-negation", "C18", "src/p256.rs",
+    "            (*R, (!c1h).wrapping_add((c1l == 0) as u32), c1l.wrapping_neg())", "            (*R, !c1h.wrapping_add((c1l == 0) as u32), c1l.wrapping_neg())", "revert of fix 38f06f1 (c1 half)")
+mut("c18-revert-fix-modint-zero-split", "C18", "src/backend/w64/modint.rs",
+    "        let u1_trunc_zero = (u1[0] | u1[1]) == 0 && self.iszero() == 0;", "        let u1_trunc_zero = false && (u1[0] | u1[1]) == 0 && self.iszero() == 0;", "revert of fix cf2e8ac")
 # ---------------------------------------------------------------- C19
+mut("c19-revert-fix-lagrange-stuck", "C19", "src/backend/w64/lagrange.rs",
+    "                    if stuck > 3 {\n                        return (v0.0, v1.0);\n                    }\n                } else {\n                    last_bl_sp = bl_sp;\n                    stuck = 0;\n                }\n            }\n            let mut s = bl_sp.wrapping_sub(bl_nv);",
+    "                    if stuck > 3 && false {\n                        return (v0.0, v1.0);\n                    }\n                } else {\n                    last_bl_sp = bl_sp;\n                    stuck = 0;\n                }\n            }\n            let mut s = bl_sp.wrapping_sub(bl_nv);",
+    "revert of fix c28c8ed (first-loop stuck exit disabled): ed448 split_vartime hangs again")
+mut("c19-revert-fix-modint-assert", "C19", "src/backend/w64/modint.rs",
+    "        if bl_nv > 208 {\n            return k.split_nonmonty_generic_vartime();", "        if bl_nv > 208 {\n            assert!(false);\n            return k.split_nonmonty_generic_vartime();", "revert of fix 12b2392")
+mut("c19-revert-fix-p256-helper-fallback", "C19", "src/p256.rs",
+    "        if b == -100 {\n            return self.mul_add_mulgen_vartime(&(-k), s).equals(*R) != 0;\n        }", "        assert!(b != -100);", "revert of fix d92d20e")
 mut("c19-revert-fix-unordered-list-panic", "C19", F,
     "            if !commitment_list_is_ordered(commitment_list) {\n                return false;\n            }\n", "", "revert of fix e699f91 (verify_signature_share half)")
 mut("c19-jq255e-verify-no-length-check", "C19", "src/jq255e.rs", '        if sig.len() != 48 {\n            return false;\n        }\n        let c = u128::from_le_bytes', '        if sig.len() > 48 {\n            return false;\n        }\n        let c = u128::from_le_bytes', "jq255e verify: signature length check removed before slicing (filled in below)")
